@@ -306,7 +306,11 @@ def congruence_comparer(comparer_params_eval, student_eval, utils):
 
     expected_reduced = expected % modulus
     input_reduced = student_eval % modulus
-    return utils.within_tolerance(expected_reduced, input_reduced)
+    # Both values now lie in [0, modulus). Values just either side of a multiple of
+    # the modulus are congruent too, so also compare with the neighboring representatives.
+    return (utils.within_tolerance(expected_reduced, input_reduced) or
+            utils.within_tolerance(expected_reduced, input_reduced - modulus) or
+            utils.within_tolerance(expected_reduced, input_reduced + modulus))
 
 def eigenvector_comparer(comparer_params_eval, student_eval, utils):
     """
